@@ -188,6 +188,27 @@ void s1(vf::Ctx& c, double rate, double tol, size_t maxStates) {
   c.note_max("s1_max_history_length", (double)maxDepth);
 }
 
+// ---- S1b: every event sequence to a depth, no state de-duplication (robust against state the canonical key does not see) ---
+void s1b(vf::Ctx& c, double rate, double tol, int depth, int first) {
+  auto A = alphabet();
+  const int NE = (int)A.size();
+  uint64_t total = 1; for (int i = 1; i < depth; ++i) total *= NE;
+  std::vector<int> seq(depth); seq[0] = first;
+  for (uint64_t k = 0; k < total; ++k) {
+    uint64_t r = k; for (int i = 1; i < depth; ++i) { seq[i] = r % NE; r /= NE; }
+    Sys s(rate, tol, 1000 * kS);
+    std::vector<Event> evs;
+    for (int i = 0; i < depth; ++i) {
+      evs.push_back(A[seq[i]]);
+      c.transitions(); if (i) c.nontrivial();
+      std::string params = (i + 1 == depth || (k % NE) == 0) ? vf::JO().str("explorer", "S1b").num("expected_rate", rate).num("tolerance", tol).raw("history", ev_json(evs)).done() : std::string("{\"explorer\":\"S1b\"}");
+      if (!step(c, s, A[seq[i]], params)) break;
+    }
+    c.traces();
+    if (c.c.violations > 30) return;
+  }
+}
+
 // ---- S2 -------------------------------------------------------------------------------------------------------
 // deviation kinds applied at event position pos of the default steady script
 //  0 jitter +10%, 1 jitter -10%, 2 burst (1 us period), 3 silence 0.6 s, 4 silence 10 s, 5 early heartbeat inserted, 6 late heartbeat inserted (0.5s+1ns), 7 very late heartbeat (2 s) then data
@@ -244,6 +265,7 @@ const std::vector<Case>& cases(bool th) {
     for (int f = 0; f < len1; ++f) v.push_back({2, r, t, len1, 1, f});
     if (th || r == 5.0 || (r == 12.5 && t == 0.1)) { int len2 = (th && r < 30 ? 3 : 2) * W + 6; for (int f = 0; f < len2; ++f) v.push_back({2, r, t, len2, 2, f}); }
   }
+  for (double r : {1.0, 2.5}) for (int f = 0; f < kNP + kNH; ++f) v.push_back({3, r, 0.1, th ? 6 : 5, 0, f});
   return v;
 }
 
@@ -253,12 +275,12 @@ uint64_t vf_ncases(const std::string& tier) { return cases(tier == "thorough").s
 
 std::string vf_case_params(uint64_t idx, const std::string& tier) {
   const Case& k = cases(tier == "thorough")[idx];
-  return vf::JO().u("case", idx).str("explorer", k.kind == 1 ? "S1" : "S2").num("expected_rate", k.rate).num("tolerance", k.tol).i("first_deviation", k.first).done();
+  return vf::JO().u("case", idx).str("explorer", k.kind == 1 ? "S1" : k.kind == 3 ? "S1b" : "S2").num("expected_rate", k.rate).num("tolerance", k.tol).i("first_deviation", k.first).done();
 }
 
 void vf_run(uint64_t idx, const std::string& tier, vf::Ctx& c) {
   const Case& k = cases(tier == "thorough")[idx];
-  if (k.kind == 1) s1(c, k.rate, k.tol, 4000000); else s2(c, k.rate, k.tol, k.len, k.bound, k.first);
+  if (k.kind == 1) s1(c, k.rate, k.tol, 4000000); else if (k.kind == 3) s1b(c, k.rate, k.tol, k.len, k.first); else s2(c, k.rate, k.tol, k.len, k.bound, k.first);
 }
 
 std::string vf_describe(const std::string& tier) {
@@ -267,6 +289,7 @@ std::string vf_describe(const std::string& tier) {
   o.str("S1", th ? "expected rates 0.5,1,2 (W=4) x tolerance {0,0.1} and 2.5 (W=5) x 0.1" : "expected rates 0.5,1,2 (W=4) x tolerance {0,0.1}");
   o.vec("S1_data_periods_ns", std::vector<long long>(kPeriods, kPeriods + kNP)).vec("S1_heartbeat_offsets_ns", std::vector<long long>(kHb, kHb + kNH));
   o.str("S1_search", "BFS to fixpoint; state = monitor queue/sum/rate + both check-up reports + model; history replayed on fresh objects at two time origins");
+  o.str("S1b", th ? "every sequence of 6 events over the 11-event alphabet for expected rates 1 (W=4) and 2.5 (W=5), no state de-duplication" : "every sequence of 5 events over the 11-event alphabet for expected rates 1 (W=4) and 2.5 (W=5), no state de-duplication");
   o.str("S2", th ? "expected rates 5,10,12.5,32,200 x tolerance {0,0.1}: 500-event steady script, deviation bound 1 at every position (8 kinds), bound 2 on scripts of 2-3 windows"
                  : "expected rates 5,10,12.5,32,200 x tolerance {0,0.1}: 500-event steady script (bound 0), bound 1 on 3W+8 events (8 kinds, every position), bound 2 on 2W+6 events for rate 5 and 12.5");
   o.str("oracle", "rate = 0 until W+1 stamps, then W/(span of last W periods) within 4 ulp; timeout iff silence > 0.5 s; report status/message/info vs model after every event");
